@@ -271,6 +271,11 @@ func c03Cases(tier string) []c03Case {
 				continue // an empty line is not an input on stdio
 			}
 			c := c03Case{Label: fmt.Sprintf("unparsable %q", body), Msg: body, Codes: []int{-32700, -32600}, MustError: true, Refuse4xx: true}
+			if !json.Valid([]byte(body)) {
+				// not JSON at all: the class of the fault is "unparsable input" (-32700, or an HTTP 4xx); valid
+				// JSON of the wrong type ([] 1 "s") may also be called an invalid request
+				c.Codes = []int{-32700}
+			}
 			if strings.HasPrefix(body, `{"jsonrpc":"2.0","id":7,"method":"ping"}`) {
 				// a complete request followed by garbage: answering the request is acceptable too
 				c.Success, c.MustError, c.Method, c.ReqID, c.IDOpt = true, false, "ping", "7", true
